@@ -21,7 +21,7 @@ P = {
  "C05": ("exploration", "property-based testing (proptest): generated files x prefixes + bounded-exhaustive small-scope enumeration (every key set over a tiny alphabet x every prefix); oracle = starts_with filter over the reference model (both directions)",
          "Forward and reverse prefix iterators are compared with a starts_with filter; generators force empty, all-FF, FF-terminated prefixes and prefixes whose successor string is itself a stored key.",
          "Trusted: the model filter; key generators concentrate on a five-letter alphabet {00,01,7f,fe,ff} to make prefix relations dense.", "5 C05"),
- "C06": ("exploration", "property-based testing (proptest): generated key universes x overlapping sources x merge functions with a call log; oracle = union model, exactly-once merge calls in source order",
+ "C06": ("exploration", "property-based testing (proptest): generated key universes x overlapping sources x merge functions with a call log + bounded-exhaustive enumeration of every key-to-source assignment over 3 keys x 3 sources; oracle = union model, exactly-once merge calls in source order",
          "0..8 sources drawn as random subsets of a key universe, each written with its own configuration, are merged with four merge functions (owned and borrowed results); the call log proves one call per shared key with the values in the order the sources were added; write_into_stream_writer is read back.",
          "Merge functions used return a lone value unchanged, as the property requires. Trusted: BTreeMap union model.", "5 C06"),
  "C07": ("exploration", "property-based testing (proptest): generated insert sequences x sorter configurations (hooked small budgets, public API), oracle = group-by-key model with insertion order, three exits compared",
